@@ -586,7 +586,7 @@ def run(chk, facts, tier, only=None):
         chk.analysed(t["key"])
         p_id = (bind_names(t["params"][0]) or [None])[0]
         rets = [x for x in value_leaves(t["body"]) if x.get("k") == "tup" and len(x["es"]) == 2]
-        chk.floor("to_identifier_case result tuples", len(rets), 4)
+        chk.floor("to_identifier_case result tuples", len(rets), 2)
         if len(rets) != len(value_leaves(t["body"])):
             chk.bad("ident:result-shape", f"to_identifier_case: a result is not a literal (doc, flag) tuple: "
                                           f"{[show(x)[:60] for x in value_leaves(t['body']) if x not in rets]}")
@@ -911,7 +911,20 @@ def run(chk, facts, tier, only=None):
                    f"positions (printed by pp_defs) and result-shaped variants may stay inline")
         # pp_defs: the root constructors that pp_ty cannot print are printed by their own arms
         pdf = fn("pp_defs")
-        dm = the_match(pdf, r"TypeInner$", 4)
+        try:
+            dm = the_match(pdf, r"TypeInner$", 4)
+        except AnchorMissing:
+            # the per-definition body may have been moved into a helper of its own
+            from shared import with_local_callees
+            dm = None
+            for g_, _via in with_local_callees(cp, pdf)[1:]:
+                try:
+                    dm = the_match(g_, r"TypeInner$", 4)
+                    break
+                except AnchorMissing:
+                    pass
+            if dm is None:
+                raise
         for r in arm_rows(dm):
             hs = ti_heads(r)
             tys = [x for x in walk(r["body"]) if x.get("k") == "mcall" and x["m"] == "pp_ty"]
